@@ -44,6 +44,8 @@ MUT = {
    "        running_var = self.running_var if not self.training or self.track_running_stats else None\n        running_mean = self.running_mean if not self.training or self.track_running_stats else None"),
  ],
  "C20": [
+  ("seeded C20-m1: Module.train()/eval() short-circuit when the own flag already matches", "patch", "/verif/seeded/C20-m1/patch.diff"),
+  ("seeded C20-m2: single shared no_grad context with one saved attribute", "patch", "/verif/seeded/C20-m2/patch.diff"),
   ("zero_grad after backward", T,
    "            self.optimizer.zero_grad()\n            train_loss.backward()\n",
    "            train_loss.backward()\n            self.optimizer.zero_grad()\n"),
